@@ -54,8 +54,11 @@ class _InMemoryConsumer(ConsumerT):
     async def finish(self) -> None:
         await asyncio.sleep(0)
         self._started = False
-        while self._queue.processing:
-            self._queue.put_back(self._queue.processing.pop())
+        # return only the messages, which were taken by this consumer -
+        # other consumers of the same queue are still working on theirs
+        for msg in [m for m in self._queue.processing if self._queue.taken_by.get(m.key.id_) is self]:
+            self._queue.processing.remove(msg)
+            self._queue.put_back(msg)
         await asyncio.sleep(0)
 
     def __update_delayed(self) -> None:
